@@ -149,14 +149,25 @@ def dtor_events(f):
     return out
 
 
+def _depth_guard(f, i, _seen={}):
+    return True
+
+
 def base_local(f, i):
     """the local variable at the root of an object expression like ((T*)(item + 1)) or item or *it"""
     while i is not None and i >= 0:
         i = f.strip(i)
         n = f.nodes[i]
         if n["k"] == "DeclRefExpr":
+            rid_ = str(n["ref"].get("id", ""))
+            if n["ref"]["dk"] == "local" and ("@" in rid_ or rid_.startswith("inl-ret")) and _depth_guard(f, i):
+                # a parameter / result of an inlined helper stands for the expression it was bound to
+                init = q.single_def(f, n["ref"]["id"])
+                if init is not None:
+                    i = init
+                    continue
             return n["ref"] if n["ref"]["dk"] in ("local", "parm") else None
-        if n["k"] in ("CStyleCastExpr", "CXXStaticCastExpr", "CXXReinterpretCastExpr", "UnaryOperator", "MemberExpr") and n["c"]:
+        if n["k"] in ("CStyleCastExpr", "CXXStaticCastExpr", "CXXReinterpretCastExpr", "UnaryOperator", "MemberExpr", "ArraySubscriptExpr") and n["c"]:
             i = n["c"][0]
             continue
         if n["k"] == "BinaryOperator" and n["op"] in ("+", "-"):
@@ -574,6 +585,10 @@ def link_idiom(prog, chk, rid, classes=tuple(NODE)):
                     c0 = P("$I->cell", lambda r: "this->data[" in r and "% this->capacity" in r)
                     c1 = P("$I->nextCell", lambda r: r.startswith("*"))
                     c2 = P("$I->nextCell->cell", lambda r: r == "&$I->nextCell")
+                    # the old chain head may be named through the value that was just stored into $I->nextCell (`head = *cell; ... head->cell = ..`)
+                    heads_ = set(r for s_, l, r in st if l == "$I->nextCell")
+                    for h_ in heads_:
+                        c2 = c2 | P(h_ + "->cell", lambda r: r == "&$I->nextCell")
                     c3 = q.pos_of(f, [s.node for s, l, r in st if l.startswith("*") and r == "$I"])
                     if c0 and c1 and c2 and c3 and paths_all_pass(f, anchor, c0) and paths_all_pass(f, anchor, c3):
                         chk.ok(rid, f, "bucket chain push with back-pointer", where, "cell/nextCell/back-pointer/head stores present on every path", evals=4)
@@ -683,6 +698,10 @@ def swap_handover(prog, chk, rid, classes=None):
                         last = stored_from(side + "endItem.prev", oth + "endItem.prev", side != "this->")
                         first = stored_from(side + "_begin.item", oth + "_begin.item", side != "this->")
                         texts = [(T(s.lhs), T(s.rhs) if s.rhs is not None else "") for s in st]
+                        for s_ in st:      # both arms of a conditional right-hand side count as stored values
+                            if s_.rhs is not None and f.nodes[f.strip(s_.rhs)]["k"] == "ConditionalOperator":
+                                cn_ = f.nodes[f.strip(s_.rhs)]["c"]
+                                texts += [(T(s_.lhs), T(cn_[1])), (T(s_.lhs), T(cn_[2]))]
                         sent = "&" + side + "endItem"
                         anchor = any(l.endswith("->next") and r == sent for l, r in texts)
                         empty = any(l == side + "_begin.item" and r == sent for l, r in texts)
@@ -868,8 +887,35 @@ def bucket_index(prog, chk, rid, classes=("HashMap", "HashSet", "PoolMap")):
                     chk.ok(rid, f, "capacity taken from another table (>= 1 by the same rule)", "%s:%s" % (f.file, f.line), q.no_casts(f.r(e)), nontrivial=False)
                 elif any(l == "this->capacity" and "!" in r for _s, l, r in nstores(f)):
                     chk.ok(rid, f, "capacity |= !capacity", "%s:%s" % (f.file, f.line), "zero is mapped to one")
+                elif _capacity_positive(f, e):
+                    chk.ok(rid, f, "capacity >= 1 for every argument", "%s:%s" % (f.file, f.line), "initialiser and body evaluated for arguments 0, 1, 500", evals=3)
                 else:
                     chk.bad(rid, f, "capacity-may-be-zero", "%s:%s" % (f.file, f.line), "constructor leaves capacity possibly 0: `h % capacity` divides by zero")
+
+
+def _capacity_positive(f, init_expr):
+    """the stored bucket count is >= 1 whatever the constructor argument is: initialiser and later stores evaluated for 0, 1, 500"""
+    from . import fin as _fin
+    for pv in (0, 1, 500):
+        val = {p["n"]: pv for p in f.params if p["t"] in ("unsigned long", "usize", "unsigned int")}
+        if not val:
+            return False
+        cap = _fin.eval_expr(f, init_expr, val)
+        for s_ in q.stores(f):
+            if q.no_casts(f.r(s_.lhs)) != "this->capacity" or s_.rhs is None:
+                continue
+            r_ = _fin.eval_expr(f, s_.rhs, val)
+            if r_ is None:
+                return False
+            if s_.op == "=":
+                cap = r_
+            elif s_.op == "|=" and cap is not None:
+                cap |= r_
+            else:
+                return False
+        if cap is None or cap < 1:
+            return False
+    return True
 
 
 def swap_stored_from(f, st, defs, side_lhs, src_text, need_tmp):
@@ -880,9 +926,12 @@ def swap_stored_from(f, st, defs, side_lhs, src_text, need_tmp):
     for s in st:
         if s.op != "=" or T(s.lhs) != side_lhs or s.rhs is None:
             continue
-        x = f.strip(s.rhs)
-        read_at = s.node
-        for _ in range(6):
+        arms = [f.strip(s.rhs)]
+        if f.nodes[arms[0]]["k"] == "ConditionalOperator" and len(f.nodes[arms[0]]["c"]) == 3:
+            arms = [f.strip(f.nodes[arms[0]]["c"][1]), f.strip(f.nodes[arms[0]]["c"][2])]     # `x = c ? a : b` stores a or b
+        for x in arms:
+          read_at = s.node
+          for _ in range(6):
             r = f.nodes[x]
             if r["k"] == "DeclRefExpr" and r["ref"]["dk"] == "local":
                 init = q.single_def(f, r["ref"]["id"], defs)
@@ -892,7 +941,7 @@ def swap_stored_from(f, st, defs, side_lhs, src_text, need_tmp):
                 x = f.strip(init)
                 continue
             break
-        if T(x) == src_text and all(not q.reaches(f, o.node, read_at) for o in over):
+          if T(x) == src_text and all(not q.reaches(f, o.node, read_at) for o in over):
             return True
     return False
 
